@@ -18,6 +18,7 @@ type Op struct {
 	Perm  hackpadfs.FileMode
 	Data  []byte
 	Mtime int64 // unix seconds
+	Raw   bool  // Stat("."): report name and mode of the root too (twin comparisons)
 }
 
 func flagString(flag int) string {
@@ -140,7 +141,7 @@ func applyOp(fs hackpadfs.FS, o Op) (out Out) {
 		out.Err = err
 		if err == nil {
 			out.Data = infoString(info)
-			if o.P == "." {
+			if o.P == "." && !o.Raw {
 				// the root's own mode and name are outside the comparison
 				out.Data = fmt.Sprintf("root kind-dir=%v", info.IsDir())
 			}
